@@ -13,7 +13,7 @@
 (***************************************************************************)
 EXTENDS TraceLib, StorePrune
 
-Judge(e) ==
+JudgePrune(e) ==
     UNION { (IF e.errs[1] = "" THEN C05Clauses(e.in.stores[i], e.in.query, e.queried[i].series) ELSE {})
             \cup (IF e.errs[2] = "" /\ C05Clauses(e.in.stores[i], e.in.query, e.queried[i].names) # {}
                     THEN {"skipped-store-holds-no-matching-data-labelnames"} ELSE {})
@@ -21,8 +21,38 @@ Judge(e) ==
                     THEN {"skipped-store-holds-no-matching-data-labelvalues"} ELSE {})
             : i \in DOMAIN e.in.stores }
 
-(* model conformance: the functional transcription of storeMatches predicts who is contacted *)
-Drift(e) == \E i \in DOMAIN e.in.stores : e.errs[1] = "" /\ e.queried[i].series # StoreMatches(e.in.stores[i], e.in.query)
+(* in.kind = "endpoints": a scenario on a real query.EndpointSet (injected clock, in-memory gRPC   *)
+(* endpoints) in front of a real ProxyStore:                                                       *)
+(*   in.T, in.strict[e], in.metas[m] = [lsets, smin, smax], in.query,                              *)
+(*   in.rounds[k] = [env: <<[inspec, up, m]>>, dt]                                                  *)
+(*   obs[k] = [clients: <<[e, lsets, smin, smax]>> offered by GetStoreClients after the round's    *)
+(*             Update, contacted: <<e>> endpoints that received the Series call, err, nwarn]        *)
+(* judged round by round with UpdateClauses / QueryClauses; advs[e] accumulates what e advertised. *)
+RECURSIVE EndpointClauses(_, _, _)
+EndpointClauses(e, k, advs) ==
+    IF k > Len(e.in.rounds) THEN {}
+    ELSE LET env == e.in.rounds[k].env
+             advs2 == AdvsAfter(env, advs)
+         IN UpdateClauses(e.in.strict, e.in.metas, env, e.obs[k].clients)
+            \cup (IF e.obs[k].err = "" THEN QueryClauses(e.in.strict, e.in.metas, env, advs2, e.in.query, e.obs[k].contacted) ELSE {})
+            \cup EndpointClauses(e, k + 1, advs2)
+JudgeEndpoints(e) == EndpointClauses(e, 1, [x \in DOMAIN e.in.strict |-> {}])
+
+Judge(e) == IF e.in.kind = "endpoints" THEN JudgeEndpoints(e) ELSE JudgePrune(e)
+
+(* model conformance: the functional transcription of storeMatches predicts who is contacted;     *)
+(* the transcription of EndpointSet.Update predicts which endpoints are offered and contacted      *)
+RECURSIVE EndpointDrift(_, _, _, _)
+EndpointDrift(e, k, refs, now) ==
+    IF k > Len(e.in.rounds) THEN FALSE
+    ELSE LET r == e.in.rounds[k]
+             now2 == now + r.dt
+             refs2 == [x \in DOMAIN refs |-> RefAfterUpdate(refs[x], e.in.strict[x], r.env[x], now2, e.in.T)]
+         IN \/ ClientEps(e.obs[k].clients) # AlgoClients(refs2, e.in.strict)
+            \/ (e.obs[k].err = "" /\ SPRng(e.obs[k].contacted) # AlgoContacted(refs2, e.in.strict, e.in.metas, e.in.query))
+            \/ EndpointDrift(e, k + 1, refs2, now2)
+Drift(e) == IF e.in.kind = "endpoints" THEN EndpointDrift(e, 1, [x \in DOMAIN e.in.strict |-> NoRef], 100)
+            ELSE \E i \in DOMAIN e.in.stores : e.errs[1] = "" /\ e.queried[i].series # StoreMatches(e.in.stores[i], e.in.query)
 
 VARIABLE l
 TraceInit == l = 1
